@@ -600,7 +600,13 @@ impl MutableArchive {
             .listfile_option(ListfileOption::Generate);
 
         // First, get the list of files if available
-        let file_list = self.list().ok();
+        // (an I/O error must abort the compaction: continuing would replace the archive with
+        // one whose files lost their names)
+        let file_list = match self.list() {
+            Ok(list) => Some(list),
+            Err(Error::Io(e)) => return Err(Error::Io(e)),
+            Err(_) => None,
+        };
 
         // Collect all active files
         let mut files_to_copy = Vec::new();
@@ -650,6 +656,9 @@ impl MutableArchive {
             // Read the file data
             let file_data = match self.read_file(filename) {
                 Ok(data) => data,
+                // An I/O error must abort the compaction: skipping the file would silently
+                // drop it from the archive that replaces the original
+                Err(Error::Io(e)) => return Err(Error::Io(e)),
                 Err(_) => {
                     // Skip files we can't read
                     log::warn!("Skipping file {filename} during compaction (read error)");
